@@ -303,6 +303,18 @@ fn main() {
         per_type!(cx, BigInt, [signed, ord]);
         per_type!(cx, BigUint, [ord]);
         per_type!(cx, Rational64, [signed, ord]);
+        #[cfg(feature = "wide2-types")]
+        {
+            per_type!(cx, i8, [signed, ord, saturating, constzero]);
+            per_type!(cx, i16, [signed, ord, saturating, constzero]);
+            per_type!(cx, i128, [signed, ord, saturating, constzero]);
+            per_type!(cx, u8, [ord, saturating, constzero]);
+            per_type!(cx, u16, [ord, saturating, constzero]);
+            per_type!(cx, u128, [ord, saturating, constzero]);
+            per_type!(cx, usize, [ord, saturating, constzero]);
+            per_type!(cx, num_rational::Rational32, [signed, ord]);
+            per_type!(cx, num_rational::Rational, [signed, ord]);
+        }
         per_type!(cx, BigRational, [signed, ord]);
     }
     cx.out.flush().unwrap();
